@@ -1139,7 +1139,9 @@ where
         handler: &TActor,
         arguments: TActor::Arguments,
     ) -> Result<Result<TActor::State, ActorProcessingErr>, SpawnErr> {
-        let future = handler.pre_start(myself, arguments);
+        // the callback is invoked inside the caught future: a hook written as a plain
+        // `fn .. -> impl Future` may panic while building its future
+        let future = async move { handler.pre_start(myself, arguments).await };
         futures::FutureExt::catch_unwind(AssertUnwindSafe(future))
             .await
             .map_err(|err| SpawnErr::StartupFailed(get_panic_string(err)))
@@ -1150,7 +1152,9 @@ where
         handler: &TActor,
         state: &mut TActor::State,
     ) -> Result<Result<(), ActorProcessingErr>, ActorErr> {
-        let future = handler.post_start(myself, state);
+        // the callback is invoked inside the caught future: a hook written as a plain
+        // `fn .. -> impl Future` may panic while building its future
+        let future = async move { handler.post_start(myself, state).await };
         futures::FutureExt::catch_unwind(AssertUnwindSafe(future))
             .await
             .map_err(|err| ActorErr::Failed(get_panic_string(err)))
@@ -1161,7 +1165,9 @@ where
         handler: &TActor,
         state: &mut TActor::State,
     ) -> Result<Result<(), ActorProcessingErr>, ActorErr> {
-        let future = handler.post_stop(myself, state);
+        // the callback is invoked inside the caught future: a hook written as a plain
+        // `fn .. -> impl Future` may panic while building its future
+        let future = async move { handler.post_stop(myself, state).await };
         futures::FutureExt::catch_unwind(AssertUnwindSafe(future))
             .await
             .map_err(|err| ActorErr::Failed(get_panic_string(err)))
